@@ -35,7 +35,7 @@ def rotations():
             M = np.zeros((3, 3))
             for i, p in enumerate(perm):
                 M[i, p] = signs[i]
-            if abs(np.linalg.det(M) - 1) < 1e-9:
+            if not (abs(np.linalg.det(M) - 1) >= 1e-9):
                 octa.append(M)
     return octa + [rot((1, 2, 3), 0.7), rot((-2, 1, 0.5), 2.1)]
 
@@ -132,7 +132,7 @@ def grid_worker(part, chunk, unit_rad):
             dev = max(np.abs(np.asarray(u1.direct) - np.asarray(u2.direct)).max() / max(a, b, c), abs(u1.volume() - u2.volume()) / u1.volume(),
                       np.abs(np.asarray(u1.inverse) - np.asarray(u2.inverse)).max() * min(a, b, c) / 1e3)
             part.dev("routes", dev)
-            if dev > 1e-8:
+            if not (dev <= 1e-8):
                 part.fail("routes-disagree", "the two construction routes give different geometry (dev %.3g) for %s" % (dev, params), case)
             if idx % 50 == 0:
                 for ri, Q in enumerate(rots):
@@ -242,7 +242,7 @@ def history_worker(part, depth):
                 check_cell(part, uc, tuple(float(x) for x in params), "history:%s-after-%s" % (alphabet[k][0], alphabet[hist[step - 1]][0] if step else "construction"),
                            case, frame_free=True)
                 # the bystander object is untouched
-                if abs(other.volume() - abs(np.linalg.det(np.asarray(other.direct)))) > 1e-9 * other.volume() or abs(other.a - 4.0) > 1e-12:
+                if not (abs(other.volume() - abs(np.linalg.det(np.asarray(other.direct)))) <= 1e-9 * other.volume()) or not (abs(other.a - 4.0) <= 1e-12):
                     part.fail("history:bystander", "re-specifying one UnitCell changed another one", case)
             seen.add(hist[-2:])
     part.nstates(len(seen))
